@@ -835,6 +835,27 @@ fn c10_for(cx: &Ctx, si: usize) -> Vec<Finding> {
             out.push(finding("C10", "C10:early-completion", "the sink was completed before every member had ended".to_string(), *t));
         }
     }
+    if horizon != usize::MAX {
+        // some member failed (C05 / D6 territory: the crate treats the failure as a plain end). Whatever is
+        // decided about the error value, "the sink completes after all members have ended" still applies: when
+        // every member has ended by itself while the output was live, the last end must terminate the sink
+        let all_ended = ms.insts.iter().all(|i| i.map_or(false, |i| matches!(&i.ended_at, Some((e, _)) if sub.live_at(*e))));
+        if all_ended {
+            let last = ms.insts.iter().flatten().filter_map(|i| i.ended_at.as_ref().map(|e| e.0)).max().unwrap();
+            let ls = span_at(cx, last);
+            if !(truncated && cx.ix.spans[ls].end >= cx.h.log.len()) {
+                match &sub.terminal_at {
+                    Some((t, _)) if *t < cx.ix.spans[ls].end => {}
+                    other => out.push(finding(
+                        "C10",
+                        "C10:never-terminated-after-all-ended",
+                        format!("all members ended (one of them with an Error); the sink must be terminated by the last end at the latest; saw {other:?}"),
+                        last,
+                    )),
+                }
+            }
+        }
+    }
     completed_once(cx, "C10", sub, &mut out);
     out
 }
